@@ -333,6 +333,23 @@ def first_panic_line(stderr):
 CHUNK_BYTES = int(os.environ.get("VERIF_CHUNK_BYTES", 600 * 1000 * 1000))
 
 
+def stuck_in_library(dump):
+    """From a SIGQUIT goroutine dump: goroutines that wait (lock, semaphore, channel) below a frame of the library."""
+    out = []
+    for blk in dump.split("\n\n"):
+        lines = blk.strip().splitlines()
+        if not lines or not lines[0].startswith("goroutine "):
+            continue
+        state = lines[0]
+        if not any(w in state for w in ("semacquire", "sync.", "chan ", "select")):
+            continue
+        for f in lines[1:]:
+            if f.startswith("github.com/welllog/golib/") and "verifshim" not in f:
+                out.append("%s in %s" % (state.split("[", 1)[-1].rstrip("]:"), f[:140]))
+                break
+    return out
+
+
 def crash_frame(stderr):
     """The innermost non-runtime function of the goroutine that crashed a Go process, or None."""
     if "panic:" not in stderr and "fatal error:" not in stderr:
@@ -660,7 +677,7 @@ def validate_hist(ctx, specdir, module, cfg, histfile, tag, max_events=None, see
 
 def conc_component(ctx, comp, specdir, mcmod, emit_cfg, gocmd, overlays, shim_files, hist_spec=("FifoHist", "FifoHist", "Hist.cfg"),
                    walk_mode="probe", sample_n=300, real_n=300, hist_budget=150000, extra_mc=(), key_prefix=None, maxlen=60,
-                   explore_budget=3000, sync_files=()):
+                   explore_budget=3000, sync_files=(), blocking_api=True):
     """E3 (deterministic scheduler): every edge of the step-level TLC graph replayed on the real code;
     divergences explored and judged by the abstract history spec; sampled schedules; E4 real
     goroutines under the race detector."""
@@ -736,11 +753,28 @@ def conc_component(ctx, comp, specdir, mcmod, emit_cfg, gocmd, overlays, shim_fi
         return ws   # already decided on deterministic executions; a broken container may also hang real goroutines
     rbin = ctx.go_build(gocmd, name=gocmd + "_race", race=True)
     env = dict(GOENV, GORACE="halt_on_error=0 exitcode=66")
+    e4_limit = 400 if ctx.tier == "quick" else 1500
+    proc = subprocess.Popen([rbin, "real", "-out", outd, "-n", str(real_n), "-seed", str(ctx.seed)], stdout=subprocess.PIPE, stderr=subprocess.PIPE, text=True, env=env)
     try:
-        rr = subprocess.run([rbin, "real", "-out", outd, "-n", str(real_n), "-seed", str(ctx.seed)], capture_output=True, text=True, env=env, timeout=900)
+        so, se = proc.communicate(timeout=e4_limit)
+        rr = subprocess.CompletedProcess(proc.args, proc.returncode, so, se)
     except subprocess.TimeoutExpired:
-        subprocess.run(["pkill", "-f", os.path.basename(rbin)[:-1] + "[" + os.path.basename(rbin)[-1] + "]"])
-        raise Inconclusive("real-concurrency run did not finish within 900 s")
+        # the run is wedged: ask the Go runtime for the stacks of all goroutines (SIGQUIT) and see where they wait
+        import signal
+        proc.send_signal(signal.SIGQUIT)
+        try:
+            so, se = proc.communicate(timeout=30)
+        except subprocess.TimeoutExpired:
+            proc.kill()
+            so, se = proc.communicate()
+        stuck = stuck_in_library(se)
+        if stuck and not blocking_api:
+            # the component has no call that is allowed to wait for another goroutine for ever: goroutines parked inside
+            # its methods while the run makes no progress are a deadlock of the real code
+            ctx.violation("%s: the real-goroutine run deadlocked with goroutines parked inside the library: %s" % (comp, "; ".join(stuck[:3])),
+                          {"component": comp + "Hang", "stuck": stuck[:10], "dump": se[:6000], "note": "re-run the check"}, key="%s/hang" % kp)
+            return ws
+        raise Inconclusive("real-concurrency run did not finish within %d s" % e4_limit)
     if "DATA RACE" in rr.stderr:
         rep = rr.stderr[rr.stderr.index("WARNING: DATA RACE"):][:3000]
         ctx.violation("%s: the Go race detector reports a data race" % comp, {"component": comp + "Race", "report": rep, "note": "re-run the check"}, key="%s/race" % kp)
